@@ -127,7 +127,7 @@ def build_classifier(spec):
 
 
 def multivariate_ok(kind):
-    return kind in ("muse", "cec")
+    return kind in ("muse", "cec", "itde")
 
 
 def min_timepoints(kind):
